@@ -26,34 +26,34 @@ const (
 
 // PipeResult is everything observed from one simulated file-pipeline run.
 type PipeResult struct {
-	Returned    bool
-	Err         error
-	ErrText     string
-	Prog        *bcl.Prog
-	Blocks      []bcl.Block
-	Binding     bcl.Binding
-	Target      any
-	Log, Out    string
-	File        *simio.SimFile
-	LogW, OutW  *simio.SimWriter // ungated once the bubble is left
-	FS          simio.FileStats
-	Steps       int
-	Choices     []int
-	Hash        uint64
-	Events      []simio.Event
-	CallerPanic string
-	ExitPanic   string // synctest's end-of-bubble report (blocked goroutines remain)
-	Stacks      []GInfo
-	StepLimit   bool
-	RetStep     int // scheduler step at which the call had returned
-	CloseStep   int // scheduler step at which Close had completed (-1: never)
-	PendAtRet   []string
-	LogGates    int
-	OutGates    int
+	Returned                bool
+	Err                     error
+	ErrText                 string
+	Prog                    *bcl.Prog
+	Blocks                  []bcl.Block
+	Binding                 bcl.Binding
+	Target                  any
+	Log, Out                string
+	File                    *simio.SimFile
+	LogW, OutW              *simio.SimWriter // ungated once the bubble is left
+	FS                      simio.FileStats
+	Steps                   int
+	Choices                 []int
+	Hash                    uint64
+	Events                  []simio.Event
+	CallerPanic             string
+	ExitPanic               string // synctest's end-of-bubble report (blocked goroutines remain)
+	Stacks                  []GInfo
+	StepLimit               bool
+	RetStep                 int // scheduler step at which the call had returned
+	CloseStep               int // scheduler step at which Close had completed (-1: never)
+	PendAtRet               []string
+	LogGates                int
+	OutGates                int
 	MaxReadsWhileLogPending int
-	ReadCallsAtRet int    // Read calls begun by the time the call returned
-	LateWrites     int    // writes to the caller's writers that began after the call had returned
-	RawLogAtReturn string // RawLog runs: the log as the caller saw it at the moment of return
+	ReadCallsAtRet          int    // Read calls begun by the time the call returned
+	LateWrites              int    // writes to the caller's writers that began after the call had returned
+	RawLogAtReturn          string // RawLog runs: the log as the caller saw it at the moment of return
 }
 
 // GInfo describes one goroutine of the bubble that is still alive at the end.
@@ -414,13 +414,13 @@ func EventStrings(ev []simio.Event) []string {
 // ParseMem is the in-memory baseline: bcl.Parse under recover.
 type MemResult struct {
 	LogBuf, OutBuf *bytes.Buffer
-	Prog     *bcl.Prog
-	Err      error
-	ErrText  string
-	Log, Out string
-	Panic    string
-	Dump     []byte
-	DumpErr  string
+	Prog           *bcl.Prog
+	Err            error
+	ErrText        string
+	Log, Out       string
+	Panic          string
+	Dump           []byte
+	DumpErr        string
 }
 
 func ParseMem(src []byte, name string, opts int) *MemResult {
